@@ -1,5 +1,6 @@
 import XmppModel.Model.Negotiate
 import XmppModel.Lemmas.Negotiate
+import XmppModel.Lemmas.NegotiateReach
 /-!
 # C04 — session establishment fails closed under faults
 
@@ -12,13 +13,6 @@ namespace XmppModel.Props.C04
 open XmppModel XmppModel.Negotiate
 
 variable {C : List Feature} {O : Oracle} {st0 : St} {script : List Peer} {picks : List FName}
-
-theorem invB_reach {c : Conf} (h : Reach C O st0 script picks c) : InvB c := by
-  refine reach_ind (P := InvB) ?_ (fun c _ hc => invB_step C O c hc) c h
-  constructor
-  · intro _ e he; cases he
-  · intro h; cases h
-  · left; intro e he; cases he
 
 /-- **a nil error only for a clean run**: if session establishment reports success, every
 executed step — every read, every write, every `List`, `Parse` and `Negotiate` callback —
@@ -50,5 +44,59 @@ it is the last event — the single exception is the deferred flush of a feature
 `List` callback failed (`writeStreamFeatures` closes its token writer on return) -/
 theorem C04_no_continue_after_fault {c : Conf} (h : Reach C O st0 script picks c) :
     FaultShape c.tr := (invB_reach h).shape
+
+/-- **not ready on failure**: when session establishment fails, the ready bit is only set if
+the caller passed it in or a feature's own `Negotiate` had returned it — the library itself
+never sets it on a failing run -/
+theorem C04_fail_not_ready {c : Conf} (h : Reach C O st0 script picks c) {e : ErrCls}
+    (hf : c.pc = .fail e) (hr : has c.st bReady = true) : has st0 bReady = true ∨ FeatReady c.tr := by
+  rcases (invC_reach h).prov hr with h1 | h1 | h1 | h1
+  · exact Or.inl h1
+  · exact Or.inr h1
+  · rw [hf] at h1; cases h1
+  · rw [hf] at h1; cases h1
+
+/-- **cancellation**: if success is reported, the context was not cancelled at any point the
+machine looked at — in particular not after the last event (the check after every
+negotiator call); the only exception is a session that was already ready on entry, for
+which nothing is negotiated at all -/
+theorem C04_cancel_never_succeeds {c : Conf} (h : Reach C O st0 script picks c) (hd : c.pc = .done) :
+    has st0 bReady = true ∨ O.cancel c.tr = false := by
+  have hh := invH_reach h
+  cases hf : c.first
+  · exact Or.inr (hh.checked (Or.inr hd) hf)
+  · exact Or.inl (hh.doneFirst hd hf)
+
+/-- **after cancellation every I/O operation fails** (the connection's deadline is in the
+past): one step from a cancelled configuration never logs a successful read or write -/
+theorem C04_cancel_io_fails (c : Conf) (hc : O.cancel c.tr = true) (e : Ev)
+    (he : (step C O c).tr = e :: c.tr) :
+    e ≠ .hdrOut true ∧ (∀ k, e ≠ .rd k .got) ∧ (∀ st fs, e ≠ .listOut st fs true) ∧ e ≠ .listAbort true := by
+  revert he
+  step_all
+  all_goals intro he
+  all_goals first
+    | exact absurd he.symm (List.cons_ne_self _ _)
+    | (injection he with h1 h2; subst h1; clear h2; simp_all; done)
+
+/-- **no panic (partial)**: the only way the machine reaches the `crash` point is a stream
+error element where a stream header is expected (known finding in internal/stream); for a
+peer script without such an element negotiation never panics -/
+theorem C04_no_panic_partial {c : Conf} (h : Reach C O st0 script picks c)
+    (hs : Peer.serr ∉ script) : c.pc ≠ .crash :=
+  fun hc => hs ((invS_reach h).crash hc)
+
+/-- the quiet oracle: nothing fails, nothing is cancelled, callbacks succeed with empty masks -/
+def quiet : Oracle :=
+  { neg := fun _ _ _ => ⟨0, false, false⟩, list := fun _ _ _ => ⟨false, false⟩,
+    parseErr := fun _ _ _ => false, fault := fun _ => false, cancel := fun _ => false }
+
+/-- **no panic fails at full strength** (negation witness, replayed on the implementation by
+the corpus line `C04 run 8 0 - X - -`): a receiver whose peer opens with a stream error -/
+theorem C04_no_panic_fails :
+    ¬ (∀ (C : List Feature) (O : Oracle) (st0 : St) (script : List Peer) (picks : List FName) (c : Conf),
+        Reach C O st0 script picks c → c.pc ≠ .crash) := by
+  intro h
+  exact h [] quiet bReceived [.serr] [] _ ⟨2, rfl⟩ (by decide)
 
 end XmppModel.Props.C04
